@@ -830,6 +830,11 @@ class Engine:
 
     def operand(self, frame, op):
         if op.kind == "const":
+            m = re.search(r"::promoted\[(\d+)\]$", op.const.strip())
+            if m:
+                name = "%s::promoted[%s]" % (frame.fn.name, m.group(1))
+                if name in getattr(self.dump, "promoted", {}):
+                    return self.run_frame(Frame(self.dump.get(name), []), 0)
             return self.const(op.const)
         v = self.read(frame, op.place)
         if op.kind == "copy":
